@@ -10,7 +10,7 @@ from valib import absint as ABS
 LEVEL = "other"
 
 # an instruction the library demonstrably emits: 66 67 REX C7 ModRM SIB disp32 imm32 (`mov word [r8d+r9d*2+disp32], imm`)
-LONGEST_KNOWN_INSTRUCTION = 14
+LONGEST_KNOWN_INSTRUCTION = 18       # `adc word [r8d+r9d*8-0x11223344], 0x1122334455667788` (67 66 REX 81 ModRM SIB disp32 imm64)
 
 
 def _is_unsigned(qt):
@@ -204,6 +204,9 @@ def run(chk, prog, tier):
         "called only from the emitters; (ROOM) the room test passes only when buffer_len - position >= K with K >= 20, an external "
         "buffer fails instead of growing; (SENT) a negative offset never becomes a write position; (PAD) the padding table index "
         "is bounded; (USUB) the zero-padding counts `K - bytes` cannot wrap: the byte count is tested first or the emitted value "
-        "is at most K bytes wide by the type it has at every call site. ASSUMED, not verified: K bytes suffice for the longest instruction the encoder can emit (a lower bound of 14 "
-        "bytes is checked).")
+        "is at most K bytes wide by the type it has at every call site. ASSUMED, not verified: K bytes suffice for the longest instruction the encoder can emit (a lower bound of 18 "
+        "bytes is checked). The assumption was false on the pinned tree for one input class - a constant written before a scaled "
+        "index was emitted twice, 22 bytes with a 67h prefix and an 8-byte immediate - which is repaired (fix 996e89e); the per-stage "
+        "maxima that can be read off the emitters (prefixes 2, opcode cells, ModRM/SIB, displacement 5, absolute address 5, immediate 8) "
+        "add up to more than K, so a static bound does not settle it: the stages exclude one another only through run-time values.")
     chk.assumptions += ["no instruction plus padding written between two room checks exceeds the reserve K"]
